@@ -39,3 +39,11 @@ package redirect
 //@ func schemeMatches
 //@   pure
 //@   requires req != nil
+
+//@ unit scheme_at_request_time frames=on props=C09,C15 filter=`redirect\.redirParse\$1\$1$`
+//@ // C09/C15: whether a site is on https is only settled when ALL directives have run (the `tls` directive switches TLS on
+//@ // for every address of its block, MakeServers switches it off again for the explicitly-HTTP ones): a redirect rule asks
+//@ // the site's TLS state every time it is matched, it does not remember what it saw when the directive was set up
+//@ func redirParse$1$1
+//@   requires cfg != nil && cfg.TLS != nil
+//@   ensures [scheme_is_read_from_the_site_when_the_rule_is_matched] (cfg.TLS.Enabled ==> result == "https") && (!cfg.TLS.Enabled ==> result == "http")
